@@ -968,8 +968,23 @@ impl CommitEnv for LsmCommitEnv {
 					task_manager.wake_up_memtable();
 				}
 
-				// Retry on new memtable - must succeed
+				// Retry on new memtable - must succeed.
+				//
+				// The batch's WAL record was appended to the segment that belongs to
+				// the memtable just rotated out, but its data is about to go into the
+				// NEW memtable. Once the rotated memtable is flushed that segment is
+				// deleted, and a crash before the new memtable is flushed would lose
+				// this acknowledged batch. So log the batch again in the segment that
+				// belongs to the memtable it is applied to (holding the memtable read
+				// lock keeps another rotation from slipping in between; replaying the
+				// record twice is harmless, the memtable ignores duplicates).
 				let active_memtable = self.core.active_memtable.read()?;
+				let enc_bytes = batch.encode()?;
+				{
+					let mut wal_guard = self.core.wal.write();
+					wal_guard.append(&enc_bytes)?;
+					wal_guard.sync()?;
+				}
 				active_memtable.add(batch)
 			}
 			Err(e) => Err(e),
